@@ -102,6 +102,8 @@ def _catalogue():
     C['big.focal.mean'] = (1, 1, lambda v, r, x: focal.mean(r[0], passes=2), True, 'bigelev')
     C['big.slope'] = (1, 1, lambda v, r, x: xrspatial.slope(r[0]), True, 'bigelev')
     C['big.hotspots'] = (1, 1, lambda v, r, x: focal.hotspots(r[0], K3), True, 'bigelev')
+    C['big.generate_terrain'] = (1, 1, lambda v, r, x: xrspatial.generate_terrain(r[0], x_range=(0, 100), y_range=(0, 50), seed=5, zfactor=4000), False, 'bigzeros')
+    C['big.perlin'] = (1, 1, lambda v, r, x: xrspatial.perlin(r[0], freq=(4, 3), seed=9), False, 'bigzeros')
     C['local.cell_stats'] = (3, 3, lambda v, r, x: local.cell_stats(xr.Dataset({'a': r[0], 'b': r[1], 'c': r[2]}), **[{}, {'func': 'max'}, {'func': 'std', 'data_vars': ['c', 'a']}][v]), False, 'small')
     C['local.combine'] = (3, 2, lambda v, r, x: local.combine(xr.Dataset({'a': r[0], 'b': r[1], 'c': r[2]}), **[{}, {'data_vars': ['b', 'a']}][v]), False, 'small')
     C['local.rank'] = (3, 1, lambda v, r, x: local.rank(xr.Dataset({'a': r[0], 'b': r[1], 'ref': r[2]}), 'ref'), False, 'rank')
@@ -143,10 +145,12 @@ def build(spec, seed):
     H, W = int(rng.integers(4, 9)), int(rng.integers(4, 9))
     if kind == 'bigelev':
         H, W = int(rng.integers(130, 171)), int(rng.integers(130, 171))
+    if kind == 'bigzeros':
+        H, W = int(rng.integers(256, 281)), int(rng.integers(256, 281))
     small_extent = nm in ('proximity', 'allocation', 'direction') and v % 3 == 2
     if small_extent:
         H, W = int(rng.integers(3, 6)), int(rng.integers(3, 6))          # a small raster whose own extent is the search radius
-    if kind == 'zeros' and np.dtype(dt).kind != 'f':
+    if kind in ('zeros', 'bigzeros') and np.dtype(dt).kind != 'f':
         dt = 'float32'
     if nm == 'viewshed':
         dt = dt if np.dtype(dt).kind == 'f' or dt in ('int32', 'int64') else 'int32'
@@ -376,9 +380,15 @@ def check_joint(rec, idx, rng, tier):
             continue
         cands = [s for s in specs if s.startswith(nm + '|')]
         A, B = (str(x) for x in rng.choice(cands, size=2, replace=len(cands) < 2))
+        if rng.random() < 0.6:
+            B = B.split('|'); B[2] = A.split('|')[2]; B = '|'.join(B)          # same dtype: the rasters of A and B are then identical for one seed
+        shared_first = nm in ('ndvi', 'ndmi', 'nbr', 'nbr2', 'savi', 'gci') and rng.random() < 0.5
         rec.evaluation()
         try:
-            ra = build(A, rec.seed)[0](); rb = build(B, rec.seed + 1)[0]()      # same function, other parameters / other data
+            same = rng.random() < 0.6          # same raster content (=> identical dask input names), other parameters
+            ref0 = build(A, rec.seed)[0]()
+            ref0 = np.asarray(ref0.data.compute()) if isinstance(ref0, xr.DataArray) and isinstance(ref0.data, da.Array) else None     # A built and computed at once
+            ra = build(A, rec.seed)[0](); rb = build(B, rec.seed if same else rec.seed + 1)[0]()      # A stays lazy while B is built
             if not (isinstance(ra, xr.DataArray) and isinstance(rb, xr.DataArray) and isinstance(ra.data, da.Array) and isinstance(rb.data, da.Array)):
                 continue
             with dask.config.set(scheduler='threads', num_workers=4):
@@ -388,6 +398,27 @@ def check_joint(rec, idx, rng, tier):
             rec.rej('raises.' + nm); continue
         from vlib import tol as _t
         da_ = _t.first_diff_exact(np.asarray(ja), np.asarray(sa)); db_ = _t.first_diff_exact(np.asarray(jb), np.asarray(sb))
+        if da_ is None and ref0 is not None:
+            dl = _t.first_diff_exact(np.asarray(sa), ref0)
+            if dl is not None:
+                rec.violation('history.lazy_result_changed_by_later_call', 'a lazy %s result computed after another %s call was made differs from the same result computed at once (%s then %s): %r'
+                              % (nm, nm, A, B, dl), dict(first=A, second=B, mode=rec.mode))
+                continue
+            rec.ok('lazy_result_unaffected_by_later_call')
+        if shared_first and da_ is None and db_ is None:
+            # two different indices that share their first band object, evaluated in one graph
+            try:
+                from xrspatial import multispectral as ms_
+                call_a, ras = build(A, rec.seed)
+                other = [f for f in ('ndvi', 'ndmi', 'nbr') if f != nm][int(rng.integers(0, 2))]
+                second = ras[1] * 0 + (ras[1] + 7)
+                r1 = getattr(ms_, nm if nm in ('ndvi', 'ndmi', 'nbr') else 'ndvi')(ras[0], ras[1]); r2 = getattr(ms_, other)(ras[0], second)
+                with dask.config.set(scheduler='threads', num_workers=4):
+                    j1, j2 = dask.compute(r1.data, r2.data); s1 = r1.data.compute(); s2 = r2.data.compute()
+                da_ = _t.first_diff_exact(np.asarray(j1), np.asarray(s1)); db_ = _t.first_diff_exact(np.asarray(j2), np.asarray(s2))
+                rec.cls('joint.shared_first_band')
+            except Exception:
+                pass
         if da_ is not None or db_ is not None:
             rec.violation('history.joint_compute_differs', 'two %s results computed in one graph differ from the same results computed separately (%s / %s): %r %r'
                           % (nm, A, B, da_, db_), dict(first=A, second=B, mode=rec.mode))
